@@ -308,6 +308,12 @@ pub fn write_file(fmt: Fmt, recs: &[RecordModel], vv: bool, crlf: bool) -> Vec<u
         push_line(&mut out, "XX", eol);
         push_line(&mut out, "//", eol);
     }
+    // UniPROBE files under the same flag: blank and whitespace-only lines in front of the first record
+    // (the reader's "advance to the first line with content" loop)
+    if vv && fmt == Fmt::Uniprobe {
+        push_line(&mut out, "", eol);
+        push_line(&mut out, " \t", eol);
+    }
     for r in recs {
         match fmt {
             Fmt::Jaspar => write_jaspar(&mut out, r, eol),
